@@ -96,7 +96,14 @@ def check(chk, repo):
         same_branch = [x for x in comp.events if x.kind == "store" and x.target == comp.field(q, "predicted_label")
                        and facts(x.guards) == facts(u.event.guards) and x.loops == u.event.loops]
         vals = [comp.field(q, "predicted_label")] + [x.value for x in same_branch]
-        return (e.target == comp.field(q, "label") and e.value in vals
+        val = e.value
+        if val[0] == "old" and w.old_cause.get(val[2], {"?"}) <= {"store"} and val[1] == comp.field(comp.p, "predicted_label"):
+            # `label_p = nodes[p].predicted_label` read before `nodes[q].predicted_label = label_p`: the only store in
+            # between goes to node q, and q != p dominates the branch, so the copy is still node p's label
+            from ..ir import has_guard, mk_cmp
+            if has_guard(e.guards, mk_cmp("!=", comp.p, q)):
+                val = val[1]
+        return (e.target == comp.field(q, "label") and val in vals
                 and facts(e.guards) == facts(u.event.guards) and e.loops == u.event.loops)
 
     check_fmax_competition(rep, "", comp, extra_store=extra)
